@@ -54,6 +54,8 @@ class _PackedBoolArray:
         else:
             if size is None:
                 size = 0
+            if size < 0:
+                raise ValueError("Size must not be negative.")
 
             if stop_index is not None:
                 raise ValueError("stop_index may not be specified without data_buffer.")
@@ -148,10 +150,9 @@ class _PackedBoolArray:
         if (newsize + self._start_index) % 8 != 0:
             newsize_data += 1
 
-        if not self._data.flags.owndata:
-            # A buffer that does not own its memory (e.g. read from a file) cannot
-            # be resized in place.
-            self._data = self._data.copy()
+        if self._stop_index % 8 != 0:
+            # The new elements must be False whatever the padding bits hold.
+            self._data[-1] &= np.uint8((1 << (self._stop_index % 8)) - 1)
 
         self._data.resize(newsize_data, refcheck=refcheck)
 
